@@ -442,4 +442,8 @@ def run(ctx):
     # sanitisation stays requested for every dump from this writer (same rule instance as C19/config-preserved)
     from rules import c19 as _c19
     _c19.rule_config_preserved(ctx, R="C12/options-kept", only=("sanitize_stack",))
+    # shared infrastructure this property leans on (rules/families.py): each member is the same rule instance as in its home property
+    from rules import families as _fam
+    _fam.reader(ctx, "C12")
+    _fam.mapping_list(ctx, "C12")
 
